@@ -286,7 +286,7 @@ case_strategy = st.builds(
 
 
 def shards(tier):
-    out = [{'name': 'hostile-%d' % i, 'kind': 'hyp', 'examples': 800 if tier == 'quick' else 40000, 'hypothesis': True}
+    out = [{'name': 'hostile-%d' % i, 'kind': 'hyp', 'examples': 2000 if tier == 'quick' else 40000, 'hypothesis': True}
            for i in range(16)]
     if tier == 'thorough':
         out += [{'name': 'atheris-%d' % i, 'kind': 'atheris', 'seconds': 240, 'fuzzseed': i + 1} for i in range(16)]
